@@ -357,53 +357,70 @@ def run(run):
                     return None
             return None
 
-        sites = []
-        for (node, conds) in T.paths_to(fn["body"], lambda x: T.is_call(x, "push")):
-            if not any(T.is_call(y, "generate_cwe_warning") for y in T.walk(node)):
-                continue
-            lits = []
-            for cd in conds:
-                if cd[0] == "arm":
-                    # an arm of a match over next(neighbors) / the reach call is a condition too
-                    mt = sy.ev(cd[1]["e"], env)
-                    if cd[1].get("ms", "").startswith("ForLoopDesugar"):
-                        continue
-                    pat = T.show_pat(cd[2]["p"])
-                    lits.append((("let", pat, mt), True))
-                    continue
-                if cd[0] != "if":
-                    continue
-                ct = sy.ev(cd[1], env)
-                if ct[0] == "bin" and any(is_call(x, "count") for x in S.subterms(ct)):
-                    continue  # malformed-graph assertion
-                if ct[0] == "let" and not any(x == ("lit", "chdir") for x in S.subterms(ct[2])) and not has_reach(ct[2]) and not is_call(S.value(ct[2]), "next"):
-                    continue  # selects the chroot call sites (BlkEnd nodes whose block calls chroot)
-                lits.append((ct, cd[2]))
-            sites.append((lits, node))
-        run.floor("cwe243 warning sites", len(sites), 1)
+        # decision table by specialisation: for each assignment of the four atoms, is a warning generated?
+        from .lib import peval as PE2
+
+        # locals bound to a successor iterator (`let mut it = graph.neighbors(node)`) in the check or its helpers
+        nb_ids = set()
+        for x in T.walk_deep(F, fn["body"], 2):
+            if x.get("k") == "LetStmt" and "i" in x and x["p"].get("k") == "Bind" and any(T.is_call(y, ("neighbors", "edges", "neighbors_directed")) for y in T.walk(x["i"])):
+                nb_ids.add(x["p"]["id"])
+
+        def warns(asg):
+            hits = {"A": 0, "N": 0, "R": 0, "C": 0}
+            first_next = []
+
+            def assume(n):
+                if n.get("k") != "Call":
+                    return None
+                nm = n.get("n")
+                if nm == "find_symbol" and any(T.peel(a).get("k") == "Lit" and T.peel(a).get("v") == "chdir" for a in n.get("a", [])):
+                    hits["A"] += 1
+                    return ("enum", "Some" if asg["A"] else "None")
+                if nm == "is_sink_call_reachable_from_source_call":
+                    hits["R"] += 1
+                    return ("enum", "Some" if asg["R"] else "None")
+                if nm == "sub_calls_chdir_and_priviledge_dropping_func":
+                    hits["C"] += 1
+                    return ("bool", asg["C"])
+                if nm == "next" and n.get("a") and (any(T.is_call(y, ("neighbors", "edges", "neighbors_directed")) for y in T.walk(n["a"][0])) or T.root_var_id(n["a"][0]) in nb_ids):
+                    if not first_next:
+                        first_next.append(id(n))
+                    if id(n) == first_next[0]:
+                        hits["N"] += 1
+                        return ("enum", "Some" if asg["N"] else "None")
+                return None
+            from .lib import bindsrc as B2
+            spec = PE2.Spec(F, assume=assume, follow_calls=True, enter_closures=True, scope=B2.bodies(F, fn))
+            nodes = spec.reach(fn["body"], {})
+            return any(T.is_call(x, "generate_cwe_warning") for x in nodes), hits
         wrong = []
-        unknown = None
+        tot = {"A": 0, "N": 0, "R": 0, "C": 0}
         for A, N, R, C in itertools.product((False, True), repeat=4):
             asg = {"A": A, "N": N, "R": R, "C": C}
-            got = False
-            for lits, node in sites:
-                vals = []
-                for ct, pol in lits:
-                    v = bev(ct, asg)
-                    if v is None:
-                        unknown = fmt(ct)
-                    vals.append(None if v is None else (v == pol))
-                if all(v is True for v in vals):
-                    got = True
+            got, hits = warns(asg)
+            for k_ in tot:
+                tot[k_] += hits[k_]
             want = (not A) or ((not (N and R)) and not C)
             if got != want:
                 wrong.append((asg, got, want))
-        if unknown:
-            run.undecided("R3", "cwe243|decision-table", "a warning path has a condition outside the vocabulary: %s" % unknown[:300], F.loc(fn["body"]))
+        unseen = [k_ for k_ in ("A", "R", "C") if tot[k_] == 0]
+        if unseen:
+            run.undecided("R3", "cwe243|decision-table", "the check does not consult %s in a recognised way (A=find_symbol(\"chdir\"), R=is_sink_call_reachable_from_source_call, C=sub_calls_chdir_and_priviledge_dropping_func)" % unseen, F.loc(fn["body"]))
         else:
-            run.check("R3", "cwe243|decision-table", not wrong,
-                      "warn <=> chdir not imported OR (no chdir call reachable after the chroot call AND NOT(function calls chdir and a privilege-dropping function)); "
-                      "atoms A=chdir imported, N=chroot block has a successor, R=chdir reachable, C=calls both; differs for %s" % (wrong[:2],), F.loc(fn["body"]))
+            # over-approximation: an undecided branch is taken both ways, so `got` can only be too large; a missing warning is exact
+            missing = [w for w in wrong if w[2] and not w[1]]
+            extra = [w for w in wrong if w[1] and not w[2]]
+            if missing:
+                run.violated("R3", "cwe243|decision-table", "warn <=> chdir not imported OR (no chdir call reachable after the chroot call AND NOT(function calls chdir and a privilege-dropping function)); "
+                             "atoms A=chdir imported, N=chroot block has a successor, R=chdir reachable, C=calls both; no warning can be generated for %s" % ([w[0] for w in missing[:2]],), F.loc(fn["body"]))
+            elif extra and tot["N"] > 0:
+                run.violated("R3", "cwe243|decision-table", "warn <=> chdir not imported OR (no chdir call reachable after the chroot call AND NOT(function calls chdir and a privilege-dropping function)); "
+                             "atoms A=chdir imported, N=chroot block has a successor, R=chdir reachable, C=calls both; a warning is generated for %s" % ([w[0] for w in extra[:2]],), F.loc(fn["body"]))
+            elif extra:
+                run.undecided("R3", "cwe243|decision-table", "a warning seems reachable for %s, but the successor test of the chroot block was not recognised" % ([w[0] for w in extra[:2]],), F.loc(fn["body"]))
+            else:
+                run.holds("R3", "cwe243|decision-table", "16 assignments", F.loc(fn["body"]))
         # sub_calls_chdir_and_priviledge_dropping_func = calls(chdir) && calls(any priv)
         # the reachability query arguments: (source=chroot, sink=chdir)
         cs = T.calls(fn["body"], name="is_sink_call_reachable_from_source_call")
